@@ -182,3 +182,46 @@ func verifC07_own() {
 	}
 	vObserve("c07", seq, a.got)
 }
+
+// C07.inflight: a client connection is closed from one goroutine while a frame of a large uncompressed Write is in flight
+// in another (the transport write already in progress still completes: a kernel write). Whatever the library hands back
+// to its pools at close, nothing of connection A may surface on a connection B that is opened in that window: B's
+// transport carries exactly what B writes.
+func verifC07_inflight() {
+	vInstallRand().concrete = true
+	vGhostPoolMode(0)
+	vGhostPoolMonitor(true)
+	tA := vNewTransport(nil)
+	tA.endMode = vEndBlock
+	tA.holdAt = 1
+	tA.holdSurvivesClose = true
+	a := newConn(connConfig{rwc: tA, client: true, br: getBufioReader(tA), bw: getBufioWriter(tA)})
+	payload := make([]byte, 5000)
+	for i := range payload {
+		payload[i] = 'A'
+	}
+	done := make(chan error, 1)
+	go func() { done <- a.Write(vBG, MessageBinary, payload) }()
+	vGhostSettle() // A's writer is inside its frame, in the transport
+	cdone := make(chan struct{})
+	go func() {
+		a.CloseNow()
+		close(cdone)
+	}()
+	vGhostSettle()
+	tB := vNewTransport(nil)
+	tB.endMode = vEndBlock
+	b := newConn(connConfig{rwc: tB, client: true, br: getBufioReader(tB), bw: getBufioWriter(tB)})
+	close(tA.release)
+	<-done
+	<-cdone
+	vGhostSettle()
+	vReach("C07.inflight.closed")
+	vAssert(len(tB.out) == 0 && tB.writesAfterClose == 0, "C07.inflight.nothing-of-A-on-B")
+	vAssert(b.Write(vBG, MessageBinary, []byte("B")) == nil, "C07.inflight.B-works")
+	frames, ok := vParseWritten(tB.out)
+	vAssert(ok && len(frames) == 1 && len(frames[0].payload) == 1 && frames[0].payload[0] == 'B', "C07.inflight.B-carries-exactly-its-own-message")
+	vAssertGhost(vGhostPoolViolations() == 0, "C07.inflight.pool-discipline")
+	b.CloseNow()
+	vObserve("c07inflight", len(tB.out))
+}
